@@ -588,6 +588,198 @@ impl GraphStore {
             }
         }
 //@end
+
+    // ---- the allocation-free neighbour visitors ----
+    /// edge_type_matches (the interned-type filter; assumed here): a function of the store, the edge id and the filter
+    pub uninterp spec fn type_ok(&self, e: EdgeId, type_ids: Option<Seq<u16>>) -> bool;
+    #[verifier::external_body]
+    fn edge_type_matches(&self, edge_id: EdgeId, type_ids: Option<&[u16]>) -> (r: bool)
+        ensures r == self.type_ok(edge_id, match type_ids { Some(t) => Some(t@), None => None })
+    { unimplemented!() }
+    /// the entries of a list whose edge passes the type filter, in order
+    pub open spec fn passing(&self, es: Seq<Entry>, t: Option<Seq<u16>>) -> Seq<Entry>
+        decreases es.len()
+    {
+        if es.len() == 0 { Seq::empty() } else if self.type_ok(es.last().1, t) { self.passing(es.drop_last(), t).push(es.last()) } else { self.passing(es.drop_last(), t) }
+    }
+    pub proof fn lemma_passing_concat(&self, a: Seq<Entry>, b: Seq<Entry>, t: Option<Seq<u16>>)
+        ensures self.passing(a + b, t) == self.passing(a, t) + self.passing(b, t)
+        decreases b.len()
+    {
+        if b.len() == 0 {
+            assert(a + b =~= a);
+            assert(self.passing(a, t) + Seq::<Entry>::empty() =~= self.passing(a, t));
+        } else {
+            assert((a + b).drop_last() =~= a + b.drop_last());
+            assert((a + b).last() == b.last());
+            self.lemma_passing_concat(a, b.drop_last(), t);
+            if self.type_ok(b.last().1, t) {
+                assert((self.passing(a, t) + self.passing(b.drop_last(), t)).push(b.last()) =~= self.passing(a, t) + self.passing(b.drop_last(), t).push(b.last()));
+            }
+        }
+    }
+
+//@fn GraphStore::for_each_outgoing_neighbor
+//@replace "mut visit: impl FnMut(NodeId, EdgeId)" => "visit: &mut impl NbrVisitor" :: the FnMut visitor is taken by value and its effect lives in what it captured; passed by &mut as a trait with a ghost record of its calls
+//@replaceall "visit(" => "visit.call(" :: same
+//@requires
+        self.adj_wf(), node_id.0 < usize::MAX,
+//@ensures
+        final(visit).seen() == old(visit).seen() + self.passing(self.frozen_outgoing.nbrs(node_id.0 as int) + buf(self.outgoing@, node_id.0 as int),
+            match type_ids { Some(t) => Some(t@), None => None }),      //#shown_exactly_the_passing_entries_frozen_then_buffered
+//@atstart
+        broadcast use FrozenAdjacencyStore::lemma_all_nbrs_small;
+        let ghost seen0 = visit.seen();
+        let ghost tf: Option<Seq<u16>> = match type_ids { Some(t) => Some(t@), None => None };
+        let ghost segs = self.frozen_outgoing.segments@;
+        proof { assert(self.passing(Seq::<Entry>::empty(), tf) =~= Seq::<Entry>::empty()); assert(seen0 + Seq::<Entry>::empty() =~= seen0); }
+//@loop 1 iter=its
+            invariant
+                self.adj_wf(), idx == node_id.0, node_id.0 < usize::MAX, segs == self.frozen_outgoing.segments@,
+                tf == (match type_ids { Some(t) => Some(t@), None => None }), seen0 == old(visit).seen(),
+                its.seq().len() == segs.len(), forall|k: int| 0 <= k < segs.len() ==> *(#[trigger] its.seq()[k]) == segs[k],
+                visit.seen() == seen0 + self.passing(FrozenAdjacencyStore::all_nbrs(segs, its.index() as int, idx as int), tf),      //#segments_so_far
+//@loop 2 iter=itn
+                invariant
+                    self.adj_wf(), idx == node_id.0, segs == self.frozen_outgoing.segments@, 0 <= si < segs.len(), *seg == segs[si], si == its.index(),
+                    tf == (match type_ids { Some(t) => Some(t@), None => None }), seen0 == old(visit).seen(),
+                    itn.seq().len() == segs[si].nbrs(idx as int).len(), forall|k: int| 0 <= k < itn.seq().len() ==> *(#[trigger] itn.seq()[k]) == segs[si].nbrs(idx as int)[k],
+                    visit.seen() == seen0 + self.passing(FrozenAdjacencyStore::all_nbrs(segs, si, idx as int), tf) + self.passing(segs[si].nbrs(idx as int).take(itn.index() as int), tf),      //#entries_of_this_segment_so_far
+//@loop 3 iter=itb
+                invariant
+                    idx == node_id.0, entries@ == buf(self.outgoing@, idx as int),
+                    tf == (match type_ids { Some(t) => Some(t@), None => None }), seen0 == old(visit).seen(),
+                    itb.seq().len() == entries@.len(), forall|k: int| 0 <= k < entries@.len() ==> *(#[trigger] itb.seq()[k]) == entries@[k],
+                    visit.seen() == seen0 + self.passing(self.frozen_outgoing.nbrs(idx as int), tf) + self.passing(entries@.take(itb.index() as int), tf),      //#buffered_entries_so_far
+//@loopstart 1
+            let ghost si = its.index() as int;
+            proof {
+                assert(*seg == segs[si]);
+                assert(segs[si].nbrs(idx as int).take(0) =~= Seq::<Entry>::empty());
+                assert(self.passing(Seq::<Entry>::empty(), tf) =~= Seq::<Entry>::empty());
+                assert(visit.seen() + Seq::<Entry>::empty() =~= visit.seen());
+            }
+//@loopstart 2
+                proof {
+                    let sn = segs[si].nbrs(idx as int);
+                    let j = itn.index() as int;
+                    assert(sn.take(j + 1).drop_last() =~= sn.take(j));
+                    assert(sn.take(j + 1).last() == sn[j]);
+                    let pre = seen0 + self.passing(FrozenAdjacencyStore::all_nbrs(segs, si, idx as int), tf);
+                    assert((pre + self.passing(sn.take(j), tf)).push(sn[j]) =~= pre + self.passing(sn.take(j), tf).push(sn[j]));
+                }
+//@loopstart 3
+                proof {
+                    let j = itb.index() as int;
+                    assert(entries@.take(j + 1).drop_last() =~= entries@.take(j));
+                    assert(entries@.take(j + 1).last() == entries@[j]);
+                    let pre = seen0 + self.passing(self.frozen_outgoing.nbrs(idx as int), tf);
+                    assert((pre + self.passing(entries@.take(j), tf)).push(entries@[j]) =~= pre + self.passing(entries@.take(j), tf).push(entries@[j]));
+                }
+//@afterloop 2
+            proof {
+                let sn = segs[si].nbrs(idx as int);
+                assert(sn.take(sn.len() as int) =~= sn);
+                self.lemma_passing_concat(FrozenAdjacencyStore::all_nbrs(segs, si, idx as int), sn, tf);
+            }
+//@before "if let Some(entries) = self.outgoing.get(idx) {"
+        proof {
+            assert(self.passing(Seq::<Entry>::empty(), tf) =~= Seq::<Entry>::empty());
+            assert(visit.seen() + Seq::<Entry>::empty() =~= visit.seen());
+        }
+//@afterloop 3
+            proof { assert(entries@.take(entries@.len() as int) =~= entries@); }
+//@atend
+        proof {
+            self.lemma_passing_concat(self.frozen_outgoing.nbrs(idx as int), buf(self.outgoing@, idx as int), tf);
+            assert(self.passing(Seq::<Entry>::empty(), tf) =~= Seq::<Entry>::empty());
+            assert(visit.seen() + Seq::<Entry>::empty() =~= visit.seen());
+        }
+//@end
+
+//@fn GraphStore::for_each_incoming_neighbor
+//@replace "mut visit: impl FnMut(NodeId, EdgeId)" => "visit: &mut impl NbrVisitor" :: the FnMut visitor is taken by value and its effect lives in what it captured; passed by &mut as a trait with a ghost record of its calls
+//@replaceall "visit(" => "visit.call(" :: same
+//@requires
+        self.adj_wf(), node_id.0 < usize::MAX,
+//@ensures
+        final(visit).seen() == old(visit).seen() + self.passing(self.frozen_incoming.nbrs(node_id.0 as int) + buf(self.incoming@, node_id.0 as int),
+            match type_ids { Some(t) => Some(t@), None => None }),      //#shown_exactly_the_passing_entries_frozen_then_buffered
+//@atstart
+        broadcast use FrozenAdjacencyStore::lemma_all_nbrs_small;
+        let ghost seen0 = visit.seen();
+        let ghost tf: Option<Seq<u16>> = match type_ids { Some(t) => Some(t@), None => None };
+        let ghost segs = self.frozen_incoming.segments@;
+        proof { assert(self.passing(Seq::<Entry>::empty(), tf) =~= Seq::<Entry>::empty()); assert(seen0 + Seq::<Entry>::empty() =~= seen0); }
+//@loop 1 iter=its
+            invariant
+                self.adj_wf(), idx == node_id.0, node_id.0 < usize::MAX, segs == self.frozen_incoming.segments@,
+                tf == (match type_ids { Some(t) => Some(t@), None => None }), seen0 == old(visit).seen(),
+                its.seq().len() == segs.len(), forall|k: int| 0 <= k < segs.len() ==> *(#[trigger] its.seq()[k]) == segs[k],
+                visit.seen() == seen0 + self.passing(FrozenAdjacencyStore::all_nbrs(segs, its.index() as int, idx as int), tf),      //#segments_so_far
+//@loop 2 iter=itn
+                invariant
+                    self.adj_wf(), idx == node_id.0, segs == self.frozen_incoming.segments@, 0 <= si < segs.len(), *seg == segs[si], si == its.index(),
+                    tf == (match type_ids { Some(t) => Some(t@), None => None }), seen0 == old(visit).seen(),
+                    itn.seq().len() == segs[si].nbrs(idx as int).len(), forall|k: int| 0 <= k < itn.seq().len() ==> *(#[trigger] itn.seq()[k]) == segs[si].nbrs(idx as int)[k],
+                    visit.seen() == seen0 + self.passing(FrozenAdjacencyStore::all_nbrs(segs, si, idx as int), tf) + self.passing(segs[si].nbrs(idx as int).take(itn.index() as int), tf),      //#entries_of_this_segment_so_far
+//@loop 3 iter=itb
+                invariant
+                    idx == node_id.0, entries@ == buf(self.incoming@, idx as int),
+                    tf == (match type_ids { Some(t) => Some(t@), None => None }), seen0 == old(visit).seen(),
+                    itb.seq().len() == entries@.len(), forall|k: int| 0 <= k < entries@.len() ==> *(#[trigger] itb.seq()[k]) == entries@[k],
+                    visit.seen() == seen0 + self.passing(self.frozen_incoming.nbrs(idx as int), tf) + self.passing(entries@.take(itb.index() as int), tf),      //#buffered_entries_so_far
+//@loopstart 1
+            let ghost si = its.index() as int;
+            proof {
+                assert(*seg == segs[si]);
+                assert(segs[si].nbrs(idx as int).take(0) =~= Seq::<Entry>::empty());
+                assert(self.passing(Seq::<Entry>::empty(), tf) =~= Seq::<Entry>::empty());
+                assert(visit.seen() + Seq::<Entry>::empty() =~= visit.seen());
+            }
+//@loopstart 2
+                proof {
+                    let sn = segs[si].nbrs(idx as int);
+                    let j = itn.index() as int;
+                    assert(sn.take(j + 1).drop_last() =~= sn.take(j));
+                    assert(sn.take(j + 1).last() == sn[j]);
+                    let pre = seen0 + self.passing(FrozenAdjacencyStore::all_nbrs(segs, si, idx as int), tf);
+                    assert((pre + self.passing(sn.take(j), tf)).push(sn[j]) =~= pre + self.passing(sn.take(j), tf).push(sn[j]));
+                }
+//@loopstart 3
+                proof {
+                    let j = itb.index() as int;
+                    assert(entries@.take(j + 1).drop_last() =~= entries@.take(j));
+                    assert(entries@.take(j + 1).last() == entries@[j]);
+                    let pre = seen0 + self.passing(self.frozen_incoming.nbrs(idx as int), tf);
+                    assert((pre + self.passing(entries@.take(j), tf)).push(entries@[j]) =~= pre + self.passing(entries@.take(j), tf).push(entries@[j]));
+                }
+//@afterloop 2
+            proof {
+                let sn = segs[si].nbrs(idx as int);
+                assert(sn.take(sn.len() as int) =~= sn);
+                self.lemma_passing_concat(FrozenAdjacencyStore::all_nbrs(segs, si, idx as int), sn, tf);
+            }
+//@before "if let Some(entries) = self.incoming.get(idx) {"
+        proof {
+            assert(self.passing(Seq::<Entry>::empty(), tf) =~= Seq::<Entry>::empty());
+            assert(visit.seen() + Seq::<Entry>::empty() =~= visit.seen());
+        }
+//@afterloop 3
+            proof { assert(entries@.take(entries@.len() as int) =~= entries@); }
+//@atend
+        proof {
+            self.lemma_passing_concat(self.frozen_incoming.nbrs(idx as int), buf(self.incoming@, idx as int), tf);
+            assert(self.passing(Seq::<Entry>::empty(), tf) =~= Seq::<Entry>::empty());
+            assert(visit.seen() + Seq::<Entry>::empty() =~= visit.seen());
+        }
+//@end
+}
+/// the consumer of the neighbour visitors (the real parameter is an FnMut closure taken by value; see the //@replace lines)
+pub trait NbrVisitor {
+    spec fn seen(&self) -> Seq<Entry>;
+    fn call(&mut self, n: NodeId, e: EdgeId)
+        ensures final(self).seen() == old(self).seen().push((n, e));
 }
 }
 fn main(){}
